@@ -7,7 +7,7 @@ P="$(realpath "$1")"; shift
 S=/tmp/vsr; R=$S/repo; H=$S/harness
 mkdir -p $S
 if [ ! -d $R ]; then git -C /repo worktree add -q --detach $R HEAD || exit 2; fi
-git -C $R checkout -q --detach "$(git -C /repo rev-parse HEAD)" && git -C $R checkout -q -- . && git -C $R clean -fdq
+git -C $R checkout -q --detach "${SEED_BASE:-$(git -C /repo rev-parse HEAD)}" && git -C $R checkout -q -- . && git -C $R clean -fdq
 git -C $R apply "$P" || exit 2
 mkdir -p $H; rsync -a --delete --exclude target /verif/harness/ $H/
 sed -i "s|path = \"/repo\"|path = \"$R\"|" $H/Cargo.toml
